@@ -19,6 +19,7 @@ import z3
 from .symx import z3_to_frac
 
 STATS = dict(queries=0, inproc_time=0.0, ext_time=0.0, ext_runs=0, by_solver={})
+SEED = 0     # changed by the runner when a job is re-run after an inconclusive attempt
 
 
 def _bump(solver):
@@ -49,6 +50,8 @@ def decide(constraints, negated_goal, inputs, timeout_ms=10000, ext_timeout_s=60
     STATS["queries"] += 1
     s = z3.Solver()
     s.set("timeout", timeout_ms)
+    if SEED:
+        s.set("random_seed", SEED)
     s.add(*constraints)
     s.add(negated_goal)
     t0 = time.time()
